@@ -13,6 +13,7 @@ import (
 	"time"
 
 	"github.com/quay/claircore"
+	"github.com/quay/claircore/toolkit/types"
 	"github.com/quay/claircore/toolkit/types/cpe"
 	"github.com/quay/claircore/verifharness/internal/hx"
 )
@@ -92,6 +93,18 @@ func opVerUn(r *hx.Run, b []byte) {
 		r.Fail("", "Version.UnmarshalText panics on hex:"+hx.Hex(b))
 	}
 	r.Op("ver-un "+hx.Hex(b), out, true)
+	// toolkit/types carries a copy of the same type and codec: same model line
+	out2 := hx.Guard(func() string {
+		var v types.Version
+		if err := v.UnmarshalText(b); err != nil {
+			return "err"
+		}
+		return fmt.Sprintf("ok %s %s", hx.Hex([]byte(v.Kind)), slots(v.V))
+	})
+	if out2 == "panic" {
+		r.Fail("", "toolkit types.Version.UnmarshalText panics on hex:"+hx.Hex(b))
+	}
+	r.Op("ver-un "+hx.Hex(b), out2, false)
 }
 
 func opDig(r *hx.Run, b []byte) {
@@ -507,6 +520,10 @@ func Run(cfg hx.Config) error {
 		b, _ := v.MarshalText()
 		r.Op(fmt.Sprintf("ver-m %s %s", hx.Hex([]byte(v.Kind)), slots(v.V)), hx.Hex(b), true)
 		r.Op("ver-s "+slots(v.V), hx.Hex([]byte(v.String())), true)
+		tv := types.Version{Kind: v.Kind, V: v.V}
+		tb, _ := tv.MarshalText()
+		r.Op(fmt.Sprintf("ver-m %s %s", hx.Hex([]byte(v.Kind)), slots(v.V)), hx.Hex(tb), false)
+		r.Op("ver-s "+slots(v.V), hx.Hex([]byte(tv.String())), false)
 		opVerUn(r, b)
 		// the statement: text round trip
 		var back claircore.Version
